@@ -21,6 +21,7 @@ type traceLine struct {
 	pres   []int
 	garb   []int
 	env    int
+	inst   int // member of the value classes the line was run with
 	v      bool
 	dec    bool
 	origin string
@@ -42,12 +43,24 @@ type gen struct {
 }
 
 func (g *gen) lockH() int {
+	switch g.r.Intn(24) { // parameters at the extremes of the machine type
+	case 0:
+		return bigVal
+	case 1:
+		return 0
+	}
 	if g.r.Intn(5) > 0 { // mostly a lock that has passed
 		return g.h - g.r.Intn(2)
 	}
 	return g.h + 1
 }
 func (g *gen) lockT() int {
+	switch g.r.Intn(24) {
+	case 0:
+		return bigVal
+	case 1, 2, 3, 4:
+		return negVal
+	}
 	if g.r.Intn(5) > 0 {
 		return g.t - 1 - g.r.Intn(2)
 	}
@@ -83,6 +96,9 @@ func (g *gen) uc() *node {
 	n.B = g.r.Intn(nk + 1)
 	if g.r.Intn(8) == 0 {
 		n.B = g.r.Intn(7)
+	}
+	if g.r.Intn(10) == 0 {
+		n.B = []int{bigVal, 255, 256, nk + 1}[g.r.Intn(4)]
 	}
 	return n
 }
@@ -189,7 +205,7 @@ func execLine(l *traceLine, envs []*env, deadline time.Duration) (hang bool, pan
 	go func() {
 		var res result
 		pan, val := vlib.Recover(func() {
-			e := envs[l.env]
+			e := envs[l.env].withInst(l.inst)
 			pol := e.policy(l.n)
 			sigs, pres := e.witness(l.sigs, l.pres, l.garb)
 			res.v = pol.Verify(e.height(l.h), e.time(l.t), e.sigHash, sigs, pres) == nil
@@ -223,6 +239,32 @@ func execLine(l *traceLine, envs []*env, deadline time.Duration) (hang bool, pan
 		return true, false, ""
 	}
 }
+
+// pickEnvInst draws an environment and a member of the value classes that is valid in it for n
+// (environment 0 takes every member).
+func pickEnvInst(n *node, r *rand.Rand) (env, inst int) {
+	env, inst = r.Intn(nEnvs), r.Intn(nInst)
+	var u classUse
+	n.classes(&u, true)
+	if !u.any() {
+		return env, 0
+	}
+	for try := 0; try < 20; try++ {
+		if traceEnvs[env].validInst(n, inst) {
+			return env, inst
+		}
+		env = r.Intn(nEnvs)
+	}
+	return 0, inst
+}
+
+var traceEnvs = func() []*env {
+	es := make([]*env, nEnvs)
+	for i := range es {
+		es[i] = &env{id: i, hBase: hBases[i%len(hBases)], tBase: time.Unix(tBases[i%len(tBases)], 0), tUnit: tUnits[i%len(tUnits)]}
+	}
+	return es
+}()
 
 func encodable(n *node) bool {
 	if len(n.Of) > 255 {
@@ -262,7 +304,8 @@ func limitLines(r *rand.Rand) []*traceLine {
 	cat := func(a []*node, b ...*node) []*node { return append(append([]*node{}, a...), b...) }
 	var out []*traceLine
 	add := func(origin string, n *node, sigs, pres []int) {
-		out = append(out, &traceLine{n: n, h: 10, t: 1000, sigs: sigs, pres: pres, garb: []int{0, 1, 2, 3, 4, 5}, env: r.Intn(nEnvs), origin: origin})
+		env, inst := pickEnvInst(n, r)
+		out = append(out, &traceLine{n: n, h: 10, t: 1000, sigs: sigs, pres: pres, garb: []int{0, 1, 2, 3, 4, 5}, env: env, inst: inst, origin: origin})
 	}
 	// total number of sub-policies: 1024 is the last accepted
 	add("total-1024", th(4, full, full, full, full), nil, nil)                                                     // 4 + 4*255
@@ -285,6 +328,38 @@ func limitLines(r *rand.Rand) []*traceLine {
 		add(fmt.Sprintf("depth-%d", d), chain(d, pk), []int{0}, nil)
 		add(fmt.Sprintf("depth-%d-wrong", d), chain(d, pk), []int{1}, nil)
 	}
+	// unlock conditions across the uint8 boundary: 255 / 256 listed keys and required signatures
+	manyKeys := func(k int, alg int) []ukey {
+		ks := make([]ukey, k)
+		for i := range ks {
+			ks[i] = ukey{Alg: alg, ID: i % 4}
+		}
+		return ks
+	}
+	rep := func(v, k int) []int {
+		s := make([]int, k)
+		for i := range s {
+			s[i] = v
+		}
+		return s
+	}
+	cyc := func(k int) []int {
+		s := make([]int, k)
+		for i := range s {
+			s[i] = i % 4
+		}
+		return s
+	}
+	add("uckeys-255", &node{K: "uc", A: 9, B: 255, Keys: manyKeys(255, 2)}, rep(-1, 255), nil)
+	add("uckeys-255-short", &node{K: "uc", A: 9, B: 255, Keys: manyKeys(255, 2)}, rep(-1, 254), nil)
+	add("uckeys-256", &node{K: "uc", A: 9, B: 256, Keys: manyKeys(256, 2)}, rep(-1, 256), nil)
+	add("uckeys-256-none", &node{K: "uc", A: 9, B: 256, Keys: manyKeys(256, 2)}, nil, nil)
+	add("uckeys-256-of-257", &node{K: "uc", A: 0, B: 256, Keys: manyKeys(257, 2)}, rep(1, 256), nil)
+	add("uckeys-257-of-256", &node{K: "uc", A: 9, B: 257, Keys: manyKeys(256, 2)}, rep(1, 256), nil)
+	add("uckeys-big-of-256", &node{K: "uc", A: 9, B: bigVal, Keys: manyKeys(256, 2)}, rep(1, 256), nil)
+	add("uckeys-big-of-256-none", &node{K: "uc", A: 9, B: bigVal, Keys: manyKeys(256, 0)}, nil, nil)
+	add("uckeys-ed-256", &node{K: "uc", A: 9, B: 256, Keys: manyKeys(256, 0)}, cyc(256), nil)
+	add("uckeys-ed-256-biglock", &node{K: "uc", A: bigVal, B: 256, Keys: manyKeys(256, 0)}, cyc(256), nil)
 	add("depth-32-wide", th(2, chain(31, pk), chain(31, &node{K: "hash", A: 1})), []int{0}, []int{1})
 	add("depth-33-empty", chain(33, th(0)), nil, nil) // an empty threshold at depth 33 is read (it has no child at 34)
 	add("depth-34-empty", chain(34, th(0)), nil, nil)
@@ -320,7 +395,8 @@ func randomLines(r *rand.Rand, n int) []*traceLine {
 			if v > 0 && r.Intn(4) == 0 {
 				h, t, origin = 9+r.Intn(3), 999+r.Intn(3), "other-context"
 			}
-			out = append(out, &traceLine{n: root, h: h, t: t, sigs: s, pres: p, env: r.Intn(nEnvs), origin: origin,
+			env, inst := pickEnvInst(root, r)
+			out = append(out, &traceLine{n: root, h: h, t: t, sigs: s, pres: p, env: env, inst: inst, origin: origin,
 				garb: []int{r.Intn(64), r.Intn(64), r.Intn(64), r.Intn(64), r.Intn(64), r.Intn(64)}})
 		}
 	}
